@@ -313,4 +313,160 @@ theorem lzmaDecode_spec_bytes (p : Props) (hp : PropsOk p) (dictSize : Nat) (hd 
   show ({ ret := Ret.streamEnd, out := histFrom sF.hist sF.outBase, consumed := sF.inPos } : DecResult) = _
   rw [hout, hcons]
 
+/-- the operations of a successful `encSyms` use existing contexts only (as in Lemmas/Lzma2ExecChunk.lean) -/
+theorem encSyms_allLt' (p : Props) (hp : PropsOk p) (dictSize : Nat) (hd : dictSize ≤ 4294967295) (syms : List Sym)
+    (pos : Nat) (st : SymSt) (hst : st.state < 12) (rb : List UInt8) {ops : List Op} {posF : Nat} {stF : SymSt}
+    {rbF : List UInt8} (h : encSyms p dictSize syms pos st rb = some (ops, posF, stF, rbF)) :
+    AllLt (probsSize p.lc p.lp) ops ∧ stF.state < 12 := by
+  have hexp : lzExpand dictSize syms st rb = some rbF := by
+    -- a successful `encSyms` is a successful expansion
+    revert pos st rb ops posF stF rbF
+    induction syms with
+    | nil =>
+      intro pos st _ rb ops posF stF rbF h
+      simp only [encSyms, Option.some.injEq, Prod.mk.injEq] at h
+      obtain ⟨_, _, _, rfl⟩ := h
+      rfl
+    | cons sym syms ih =>
+      intro pos st hst rb ops posF stF rbF h
+      simp only [encSyms] at h
+      cases happ : applySym dictSize rb st sym with
+      | none => rw [happ] at h; cases h
+      | some rb1 =>
+        rw [happ] at h
+        simp only [] at h
+        obtain ⟨hvalid, _⟩ := applySym_valid hd happ
+        rw [symOps_next p st pos _ _ sym hvalid] at h
+        cases hrec : encSyms p dictSize syms (pos + sym.len) (st.next sym) rb1 with
+        | none => rw [hrec] at h; cases h
+        | some q =>
+          obtain ⟨ops1, fin⟩ := q
+          rw [hrec] at h
+          simp only [Option.some.injEq, Prod.mk.injEq] at h
+          obtain ⟨_, rfl⟩ := h
+          simp only [lzExpand, happ]
+          exact ih _ _ (next_state_lt st sym hst) _ hrec
+  obtain ⟨ops', pos', st', henc', hs', hall⟩ := encSyms_of_expand p hp dictSize hd syms pos st rb rbF hst hexp
+  rw [h] at henc'
+  simp only [Option.some.injEq, Prod.mk.injEq] at henc'
+  obtain ⟨rfl, _, rfl, _⟩ := henc'
+  exact ⟨hall, hs'⟩
+
+/-- The executable LZMA1 decoder with a KNOWN uncompressed size and no end marker (MicroLZMA, LZMA1EXT) on the flushed
+    range-coder bytes of a valid symbol sequence. -/
+theorem lzmaDecode_known_size (p : Props) (hp : PropsOk p) (dictSize : Nat) (hd : dictSize ≤ 4294967295)
+    (hist data : List UInt8) (syms : List Sym) (ops : List Op) (posF : Nat) (stF : SymSt)
+    (henc : encSyms p dictSize syms 0 {} hist.reverse = some (ops, posF, stF, data.reverse ++ hist.reverse))
+    (bytes : List UInt8) (hbytes : (rcEncode (initProbs p) ops).1 = bytes) (outCap : Nat)
+    (hcap : data.length < outCap) :
+    lzmaDecode p dictSize (some data.length) false bytes hist outCap =
+      { ret := .streamEnd, out := data, consumed := bytes.length } := by
+  obtain ⟨hallAll, hsF⟩ := encSyms_allLt' p hp dictSize hd syms 0 {} (by decide) hist.reverse henc
+  -- the decoder's view of the contexts
+  generalize hcopy : min hist.length (roundDictSize dictSize) = copy
+  have hcopy1 : copy ≤ hist.length := by omega
+  have hcopy2 : copy ≤ roundDictSize dictSize := by omega
+  have hallD := allLt_rename p (copy % 16) hp _ hallAll
+  have hsz : (initProbs p).size = probsSize p.lc p.lp := by simp [initProbs]
+  have hrename : (rcEncode (initProbs p) (ops.map (opRename (ctxMap p (copy % 16))))).1
+      = (rcEncode (initProbs p) ops).1 :=
+    rcEncode_rename _ (ctxMap_inj p _ hp) _ _ _ (renamedT_init p _ hp).toRenamed (by rw [hsz]; exact hallAll)
+  have hokD := initProbs_ok p _ hallD
+  obtain ⟨rc, rest, hinit, hchan, _⟩ := chan_init (initProbs p) _ [] hokD
+  have hbytes' : (encFlush (encOps (initProbs p) Enc.init
+      (ops.map (opRename (ctxMap p (copy % 16))))).2).out = bytes := by
+    rw [← hbytes, ← hrename]; rfl
+  rw [hbytes', List.append_nil] at hinit
+  generalize (encOps (initProbs p) Enc.init (ops.map (opRename (ctxMap p (copy % 16))))).1 = psF at hchan
+  -- the decoder
+  unfold lzmaDecode
+  generalize hs0 : St.initLzma1 p dictSize (some data.length) (false || (some data.length : Option Nat).isNone) hist (ByteArray.mk bytes.toArray) = s0
+  have hinp : s0.inp.data.toList = bytes := by rw [← hs0]; simp [St.initLzma1, St.resetLzma]
+  have hinpsz : s0.inp.size = bytes.length := by rw [← ByteArray.size_data, ← Array.length_toList, hinp]
+  have htail : (presetTail dictSize hist).length = copy := by
+    simp only [presetTail, List.length_drop]; omega
+  have hf0 : s0.initLeft = 5 ∧ s0.range = UINT32_MAX ∧ s0.code = 0 ∧ s0.inPos = 0 ∧ s0.pending = Pending.none ∧
+      s0.uncomp = some data.length ∧ s0.outBase = copy ∧ s0.dp.needReset = false ∧ s0.probs = initProbs p ∧ s0.lc = p.lc ∧
+      s0.lp = p.lp ∧ s0.pb = p.pb ∧ s0.state = 0 ∧ s0.rep0 = 0 ∧ s0.rep1 = 0 ∧ s0.rep2 = 0 ∧ s0.rep3 = 0 ∧
+      hl s0.hist = presetTail dictSize hist ∧ s0.dp = DictPos.init dictSize hist.length := by
+    rw [← hs0]
+    refine ⟨rfl, rfl, rfl, rfl, rfl, rfl, htail, rfl, rfl, rfl, rfl, rfl, rfl, rfl, rfl, rfl, rfl, ?_, rfl⟩
+    simp [St.initLzma1, St.resetLzma, hl]
+  obtain ⟨h5, hr0, hc0, hip0, hpd0, hun0, hob0, hnr0, hps0, hlc0, hlp0, hpb0, hst0, hr00, hr01, hr02, hr03, hhl0, hdp0⟩ := hf0
+  have hdrop0 : s0.inp.data.toList.drop s0.inPos = bytes := by rw [hip0, hinp]; rfl
+  obtain ⟨hri, hrange, pre5, hpre5, hpre5len⟩ := rcReadInit_five s0 h5 hr0 hc0 hdrop0 hinit
+  -- the state with the five init bytes read
+  generalize hs1 : ({ s0 with code := rc.code, inPos := s0.inPos + 5, initLeft := 0 } : St) = s1 at hri
+  have hcall0 : ∀ a, lzmaCall (relimit s0 a) = lzmaCall (relimit s1 a) := by
+    intro a
+    have hri' : rcReadInit (relimit s0 a) = .ok true (relimit s1 a) := by
+      have := rcReadInit_five (relimit s0 a) h5 hr0 hc0 hdrop0 hinit
+      rw [this.1, ← hs1]; rfl
+    exact lzmaCall_of_init _ _ (by show (s0.pending == Pending.stuck) = false; rw [hpd0]; rfl) hri'
+      (by rw [← hs1]; rfl) (by rw [← hs1]; rfl)
+  have hbuf0 : ∀ f, decodeBuffer lzmaCall (f + 1) outCap s0 = decodeBuffer lzmaCall (f + 1) outCap s1 := by
+    intro f
+    rw [decodeBuffer_succ, decodeBuffer_succ, hcall0]
+    have : s1.produced = s0.produced := by rw [← hs1]; rfl
+    rw [this]
+  -- the invariant at the first call
+  have hfields1 : s1.initLeft = 0 ∧ s1.pending = Pending.none ∧ s1.uncomp = some data.length ∧ s1.outBase = copy ∧
+      s1.dp.needReset = false ∧ s1.hist = s0.hist ∧ s1.inp = s0.inp ∧ s1.inPos = 5 ∧ s1.dp = s0.dp := by
+    rw [← hs1]; exact ⟨rfl, hpd0, hun0, hob0, hnr0, rfl, rfl, by simp [hip0], rfl⟩
+  obtain ⟨hi1, hpd1, hun1, hob1, hnr1, hh1, hinp1, hip1, hdp1⟩ := hfields1
+  have hsim1 : Sim p dictSize (copy % 16) s1 0 {} hist.reverse := by
+    have hhsz : s1.hist.size = copy := by rw [hh1, ← hl_length, hhl0, htail]
+    refine ⟨by rw [← hs1]; exact hlc0, by rw [← hs1]; exact hlp0, by rw [← hs1]; exact hpb0,
+      ⟨by rw [← hs1]; exact hst0, by rw [← hs1]; exact hr00, by rw [← hs1]; exact hr01, by rw [← hs1]; exact hr02,
+       by rw [← hs1]; exact hr03⟩, by decide, ?_, ?_⟩
+    · refine ⟨⟨(hist.take (hist.length - copy)).reverse, ?_⟩, ?_, ?_, (by rw [hdp1, hdp0]; rfl), ?_, ?_, ?_, ?_⟩
+      · rw [hh1, hhl0]
+        simp only [presetTail, hcopy]
+        rw [← List.reverse_append, List.take_append_drop]
+      · rw [hdp1, hdp0]; simp only [DictPos.init, hcopy]; omega
+      · rw [hdp1, hdp0]; simp only [DictPos.init, hcopy, List.length_reverse]; omega
+      · rw [hdp1, hdp0]; intro _; simp only [DictPos.init, hcopy, LZ_DICT_INIT_POS]; omega
+      · rw [hdp1, hdp0]; intro h; simp [DictPos.init] at h
+      · rw [hdp1, hdp0]; simp only [DictPos.init]; omega
+      · rw [hdp1, hdp0]
+        have := (allocSize_mod dictSize).2.2
+        simp only [DictPos.init, hcopy, LZ_DICT_INIT_POS]; omega
+    · rw [hdp1, hdp0]; simp only [DictPos.init, hcopy, LZ_DICT_INIT_POS]; omega
+  have hview1 : View s1 (initProbs p) rc rest := by
+    have hlen : bytes.length = 5 + rest.length := by rw [hpre5]; simp [hpre5len]
+    refine ⟨by rw [← hs1]; exact hps0, by rw [← hs1]; exact hr0.trans hrange.symm, by rw [← hs1], ?_, ?_⟩
+    · rw [hip1, hinp1, hinpsz]; omega
+    · rw [hip1, hinp1, hinp, hpre5, List.drop_left' hpre5len]
+  have hcallst : CallSt p dictSize (copy % 16) false [] psF s1 data.length posF stF (data.reverse ++ hist.reverse) := by
+    refine ⟨⟨0, {}, hist.reverse, 0, hist.reverse, syms, initProbs p, rc, rest, ops, hsim1, ?_, ?_, hview1, henc, ?_, ?_⟩,
+      hi1, (fun h => by cases h), fun _ => hun1⟩
+    · rw [hpd1]; exact ⟨rfl, rfl⟩
+    · intro h; simp [isLiteralState, LIT_STATES] at h
+    · simp only [endOps, Bool.false_eq_true, if_false, List.append_nil]; exact hchan
+    · -- the symbols produce `data.length` bytes
+      have := encSyms_len p dictSize syms 0 {} hist.reverse henc
+      simp at this; omega
+  have hprod1 : s1.produced = 0 := by
+    simp only [St.produced, hob1, hh1, ← hl_length, hhl0, htail]; omega
+  obtain ⟨fu, hfu⟩ : ∃ fu, decodeBufferFuel s0 outCap = fu + 1 := ⟨_, rfl⟩
+  have hfuel : data.length < fu + 1 := by
+    rw [← hfu]; simp only [decodeBufferFuel, St.produced, hob0, ← hl_length, hhl0, htail]; omega
+  obtain ⟨sF, hrun, ⟨stF', hsimF⟩, hsizeF, hinF, hobF, hinpF⟩ := bufE_run p hp dictSize hd (copy % 16) false [] psF outCap posF stF
+    (data.reverse ++ hist.reverse) data.length (fu + 1) s1 hcallst hnr1
+    (by rw [hob1, hh1, ← hl_length, hhl0, htail]) (by rw [hprod1]; omega) hfuel
+  show (match decodeBuffer lzmaCall (decodeBufferFuel s0 outCap) outCap s0 with
+    | (ret, s) => ({ ret := ret, out := histFrom s.hist s.outBase, consumed := s.inPos } : DecResult)) = _
+  rw [hfu, hbuf0, hrun]
+  simp only [List.length_nil, Nat.add_zero] at hinF
+  have hout : histFrom sF.hist sF.outBase = data := by
+    obtain ⟨extra, hpre⟩ := hsimF.win.pre
+    show (hl sF.hist).drop sF.outBase = data
+    rw [hobF, hob1]
+    exact out_of_win (hl sF.hist) extra data hist copy hcopy1 hpre
+      (by rw [hl_length, hsizeF, hh1, ← hl_length, hhl0, htail])
+  have hcons : sF.inPos = bytes.length := by rw [hinF, hinpF, hinp1, hinpsz]
+  show ({ ret := Ret.streamEnd, out := histFrom sF.hist sF.outBase, consumed := sF.inPos } : DecResult) = _
+  rw [hout, hcons]
+
+
 end XzVerif.LzmaExec
